@@ -23,6 +23,8 @@ SPELL = {
     'ARRAY_AGG': ['ARRAY_AGG', 'array_agg', 'Array_agg'], 'ANY_VALUE': ['ANY_VALUE', 'any_value', 'Any_value'],
 }
 INTS = ['0', '1', '2', '3', '7', '10', '-1', '-4', '12', '100', '0']
+# integers beyond 2**53: exact in Python; a double cannot hold them (such tables are not sent to the JS leg)
+BIG_INTS = ['9007199254740993', '9007199254740995', '-9007199254740997', '123456789012345678', '123456789012345679', '1', '-3', '18014398509481985']
 FLOATS = ['0.5', '2.5', '-1.5', '10.25', '0.0', '3.75', '-0.25', '2.0']
 KEYS = ['a', 'B', 'ab', 'a b', 'c', 'b', 'Zz', 'é']
 
@@ -48,6 +50,8 @@ def gen_numeric_table(rng):
     kvals = [rng.sample(KEYS, rng.randrange(1, 6)) for _ in range(nkeys)]
     # numeric strings (what CSV sources deliver) and, in a quarter of the columns, native numbers (what list / pandas / sqlite sources deliver)
     kinds = [rng.choice(['int', 'int', 'float', 'mixed', 'zeros', 'int', 'float', 'mixed', 'zeros', 'nint', 'nfloat', 'nmixed']) for _ in range(nvals)]
+    if rng.random() < 0.06:
+        kinds[rng.randrange(nvals)] = rng.choice(['bigint', 'nbigint'])
     A = []
     for r in range(nrows):
         rec = [rng.choice(kv) for kv in kvals]
@@ -58,6 +62,10 @@ def gen_numeric_table(rng):
                 rec.append(rng.choice(FLOATS))
             elif kd == 'zeros':
                 rec.append(rng.choice(['0', '0', '0', '5', '-5']))
+            elif kd == 'bigint':
+                rec.append(rng.choice(BIG_INTS))
+            elif kd == 'nbigint':
+                rec.append(int(rng.choice(BIG_INTS)))
             elif kd == 'nint':
                 rec.append(int(rng.choice(INTS)))
             elif kd == 'nfloat':
@@ -131,7 +139,10 @@ def gen_case(rng, i, neutral_only=False):
     if rng.random() < 0.25:
         q['top'] = rng.randrange(0, 4)
         q['top_kw'] = rng.choice(['top', 'limit'])
-    return common.case_json(q, {'A': A, 'B': None, 'a_names': a_names, 'b_names': None})
+    case = common.case_json(q, {'A': A, 'B': None, 'a_names': a_names, 'b_names': None})
+    if any(abs(int(c)) > 2 ** 53 for r in A for c in r[nkeys:] if isinstance(c, int) or isinstance(c, str) and c.lstrip('-').isdigit()):
+        case['py_only'] = True
+    return case
 
 
 def gen_builtin_case(rng):
@@ -186,10 +197,10 @@ def run_shard(spec, res):
 def summarize(tier, seed, m):
     aggs = {k[4:]: v for k, v in m['counters'].items() if k.startswith('agg:')}
     return {
-        'rule': 'aggregate queries with 1-5 aggregates out of COUNT(*|1|x), MIN, MAX, SUM, AVG, VARIANCE, MEDIAN, ARRAY_AGG, ANY_VALUE in upper / lower / capitalised spellings (expression arguments in the Python leg), group keys and constants as plain columns, no GROUP BY / one key / two keys / NR %% k / len(key), optional WHERE and TOP/LIMIT, over tables of 0-40 rows with int, float, mixed int->float, zero-heavy and negative numeric strings; one case in 16 exercises builtin min/max/sum dispatch in a non-aggregate query; a non-constant plain column is injected in 6%% of the cases and must be rejected with the record number. distinct_nontrivial = distinct (query, table) with at least one result row.',
+        'rule': 'aggregate queries with 1-5 aggregates out of COUNT(*|1|x), MIN, MAX, SUM, AVG, VARIANCE, MEDIAN, ARRAY_AGG, ANY_VALUE in upper / lower / capitalised spellings (expression arguments in the Python leg), group keys and constants as plain columns, no GROUP BY / one key / two keys / NR %% k / len(key), optional WHERE and TOP/LIMIT, over tables of 0-40 rows with int, float, mixed int->float, zero-heavy and negative numeric strings, native int / float cells, and integers beyond 2**53 (Python leg only); one case in 16 exercises builtin min/max/sum dispatch in a non-aggregate query; a non-constant plain column is injected in 6%% of the cases and must be rejected with the record number. distinct_nontrivial = distinct (query, table) with at least one result row.',
         'required': ['py_aggregate_cases', 'py_builtin_dispatch_cases', 'groups_checked', 'predicted_errors', 'js_cases'],
         'extra': {'aggregate_spellings_seen': aggs},
-        'assumptions': ['numeric tolerance 1e-9 relative (scale max(1,|x|)) for AVG / VARIANCE / MEDIAN / float SUM / MIN / MAX over floats', 'plain columns are never None (the engine uses None as its unset sentinel; the quantifier is over numeric columns)'],
+        'assumptions': ['numeric tolerance 1e-9 relative for the results every implementation computes in floating point (AVG, VARIANCE, the mean of the two middle values of MEDIAN, SUM / MIN / MAX over floats); the scale is max(1, |result|, largest |operand|) - for VARIANCE the largest squared operand - because that is what bounds a floating-point sum; integer MIN / MAX / SUM / MEDIAN (odd count) / COUNT are compared exactly, also beyond 2**53 (Python leg)', 'plain columns are never None (the engine uses None as its unset sentinel; the quantifier is over numeric columns)'],
     }
 
 
